@@ -75,19 +75,26 @@ def check_case(c):
         configs = []
         if c["nmodes"] == 0:
             configs.append(("dense-generalized", [A, B], {}))
+            configs.append(("dense-generalized/column-major", [np.asfortranarray(A), np.asfortranarray(B)], {}))
             if c["std"]:
                 configs.append(("dense-standard", [A], {}))
+                configs.append(("dense-standard/column-major", [np.asfortranarray(A)], {}))
         else:
             configs.append(("sparse-generalized", [sps.csc_matrix(A), sps.csc_matrix(B)], dict(nmodes=c["nmodes"], sigma=q(c["sigma"]))))
             if c["std"]:
                 configs.append(("sparse-standard", [sps.csc_matrix(A)], dict(nmodes=c["nmodes"], sigma=q(c["sigma"]))))
         for label, mats, kw in configs:
+            before = [M.copy() for M in mats]
             try:
                 m = pym.EigenSolve([pym.Signal("M%d" % i, M) for i, M in enumerate(mats)], **kw)
                 m.response()
                 W, Q = [np.asarray(s.state) for s in m.sig_out]
             except Exception as e:
                 return "raise", "%s raised %s: %s" % (label, type(e).__name__, str(e)[:150])
+            for M0, sg in zip(before, m.sig_in):
+                M1 = sg.state
+                if (M0 != M1).nnz if sps.issparse(M0) else not np.array_equal(M0, M1):
+                    return "input-changed", "%s: response() changed the matrix it was given (the eigenpairs no longer belong to the input)" % label
             if W.shape != lam.shape or Q.shape != V.shape:
                 return "count", "%s returned %s eigenvalues / vectors of shape %s, expected %s / %s" % (label, W.shape, Q.shape, lam.shape, V.shape)
             if not np.allclose(W, lam, rtol=1e-8, atol=1e-9):
